@@ -1007,7 +1007,8 @@ class LanguageGraph():
                 else:
                     attack_steps[step['name']]['reaches'] = {
                         'overrides': False,
-                        'stepExpressions': step['reaches']['stepExpressions']
+                        'stepExpressions': copy.deepcopy(
+                            step['reaches']['stepExpressions'])
                     }
 
 
